@@ -223,7 +223,7 @@ def run_histories(chk, consts):
     histories = [("directed", [tuple(o) for o in h]) for h in DIRECTED]
     for n, maxlen in ((1, 4), (2, 3)) if quick else ((1, 5), (2, 5), (3, 4)):
         histories += [("exhaustive", h) for h in exhaustive_histories(n, maxlen)]
-    for kind, cnt in (("valid", 250), ("adversarial", 250), ("raw", 80)) if quick else (("valid", 4000), ("adversarial", 4000), ("raw", 1200)):
+    for kind, cnt in (("valid", 150), ("adversarial", 150), ("raw", 50)) if quick else (("valid", 4000), ("adversarial", 4000), ("raw", 1200)):
         histories += [(kind, rand_history(rng, kind)) for _ in range(cnt)]
     cmp_ = core.CoqCompare("c15_hist", IMPORTS, f"run_obs {consts} init_world", "list_eqbZ step_obs_eqb",
                            "list op", "list (presult * option (Z * list (option Z) * bool) * list pevent)", shard=400)
@@ -316,13 +316,25 @@ def run_handover(chk, consts):
                             continue
                         before = w.read_state()
                         first_completion = ("mark", act[1]) not in w.events
-                        out, psn = w.complete_stage(act[1], with_results=act[2])
+                        try:
+                            out, psn = w.complete_stage(act[1], with_results=act[2])
+                        except Exception as e:   # the stand-ins could not even set the completion up
+                            chk.tie_broken("hand-over: completing stage %d could not be driven (%s)" % (act[1], type(e).__name__),
+                                           json.dumps({"scenario": [n, autos, script], "events": list(w.events)}, default=str)[:1500])
+                            break
                         trace.append((act, out, w.read_state()))
                         # progress oracle (the environment is cooperative in these scenarios): the first completion of
                         # stage k submits stage k+1, or completes the pipeline if k was the last stage
                         if isinstance(out, int) and first_completion and env == G:
                             st = w.read_state()
                             k = act[1]
+                            want = 0 if act[2] else 1    # all results present -> Status.GOOD, a job without result -> ERROR
+                            if st and 1 <= k <= len(st[1]) and (st[1][k - 1] != out or out != want):
+                                chk.violation("handover-return-code-wrong",
+                                              f"stage {k} finished with status value {want} (returned {out}) but pipeline.json records {st[1][k - 1]}",
+                                              {"component": "JobSubmitter._handle_completion -> jade pipeline submit-next-stage",
+                                               "stages": n, "autos": autos, "script": script, "events": list(w.events),
+                                               "final_pipeline_json": st})
                             if (k < n and ("submit", k + 1) not in w.events) or (k == n and not (st and st[2])):
                                 chk.violation("no-progress-after-completion",
                                               f"stage {k} of {n} completed (first time) but " +
